@@ -110,6 +110,10 @@ def synthetic_shapes(isa, rnd):
         shapes += [
             dict(name="wbl", canon=["d", "ms"], order={a: [0, 1]}, in_db=False, wb="post"),
             dict(name="wbp", canon=["d", "ms"], order={a: [0, 1]}, in_db=False, wb="pre"),
+            # data register of the vector file, base of the general-purpose file: their NUMBERS may coincide
+            # (`wvl d1, [x1], #8`), the registers never do
+            dict(name="wvl", canon=["d", "ms"], order={a: [0, 1]}, in_db=False, wb="post", vec=True),
+            dict(name="wvp", canon=["d", "ms"], order={a: [0, 1]}, in_db=False, wb="pre", vec=True),
         ]
     for s in shapes:
         s.setdefault("fr", [])
@@ -215,7 +219,8 @@ def gen_instr(isa, shape, rnd, pool=None, vpool=None, args=None, same_width=Fals
     vpool = vpool or VEC_POOL[isa]
     canon = shape["canon"]
     if args is None:
-        args = [rnd.choice(vpool if shape["vec"] else pool) for _ in canon]
+        # address registers are general-purpose registers also when the data registers are vector registers
+        args = [rnd.choice(pool if r in ("ms", "md") else (vpool if shape["vec"] else pool)) for r in canon]
     assert len(args) == len(canon)
     R, W, WB, LD, ST, CH = set(), set(), set(), [], [], []
     texts_c = [None] * len(canon)
